@@ -11,7 +11,7 @@ from lib.cint import ALL, cname, leaf, ev, render, typeof, Undefined, BINOPS, UN
 
 LEVEL = 'exploration'
 ALLOBS = []
-MIN_COUNTS = {"observations": (60000, 500000), 'cells': (1500, 1500)}
+MIN_COUNTS = {"observations": (60000, 380000), 'cells': (1500, 1500)}
 PER_TU = 1200
 
 
